@@ -419,6 +419,7 @@ func runDriver(args []string) int {
 		"go/ssa construction, go/types and the Go compiler are trusted; the verified text is the SSA of /repo's working tree at check time",
 		"memory model: objects are references, fields/elements/cells live in typed heaps; no goroutines, unsafe or reflect are modelled",
 		"integers are mathematical; where a function does not claim 'wrap'/'conv' safety, absence of wrap-around is assumed (listed per function)",
+		"caller-supplied callbacks are taken to interact with ice only through its public read API; they are taken not to change the ghost flags rdfailed (their failed reads are theirs to report) and pooled (they never hold the caller's checked-out pool objects)",
 		"termination is not proved unless a 'decreases' clause is given; out-of-memory is not modelled",
 		"solver soundness (z3 4.8.12, z3 5.1.0, cvc5 1.0.3)")
 	sort.Strings(assumptions)
